@@ -47,7 +47,7 @@ P = {
    "ar archives are rendered from a member model by an independent writer; iteration must return exactly the model, readers must be independent, re-readable and exact, and end-of-archive must be reported; archives of up to 24 000 members, members ending on the 64 KiB mark, names other ar dialects give a meaning to.",
    "archives follow the common ar layout (60-byte headers, even padding)"),
  "C14": ("exploration", "3/C14", "package model x 36 codec pairs + dpkg-deb",
-   "Generated .deb packages over all 6x6 compression pairs (plus real dpkg-deb builds when present) must load with control fields, extensions, member index and data tar equal to the model; bad format versions and missing members are rejected; loads are deterministic.",
+   "Generated .deb packages over all 6x6 compression pairs (plus real dpkg-deb builds when present) must load with control fields, extensions, member index and data tar equal to the model; bad format versions and missing members are rejected; loads are deterministic - also for files with members named like the control or data member without being one (C14/samebytes); tars in the GNU, ustar and pax dialects, sources with and without a known size.",
    "xz/bzip2 members are produced by the system tools; skipped and counted when absent"),
  "C15": ("exploration", "3/C15", "structured corruption + step-bounded reader",
    "Corrupted and truncated archives (every header column, every truncation offset) and raw bytes (native fuzz in thorough) are read through a counting ReaderAt: no panic, bounded steps, returned members carry the header magic, non-negative size and exactly Size bytes; repeated loads agree (error text included); tar-level hostile control members (sparse, size-claiming, half a million continuation lines) must neither hang nor panic.",
@@ -59,13 +59,13 @@ P = {
    "Changelogs rendered from an entry model must parse to exactly the model; every prefix of generated changelogs must yield all complete entries or an error; malformed header/trailer/date classes must not silently shorten the list.",
    "generator soundness cross-checked with dpkg-parsechangelog when present"),
  "C18": ("exploration", "3/C18", "totality, determinism, value-xor-error, race detector",
-   "Arbitrary and grammar-mutated bytes are fed to every parser entry point under a watchdog: no panic, no hang, never a usable value together with an error, identical results (error text included) on repetition, under another local time zone and under 32 concurrent goroutines with -race.",
+   "Arbitrary and grammar-mutated bytes are fed to every parser entry point under a watchdog: no panic, no hang, never a usable value together with an error, identical results (error text included) on repetition, into a destination that held other content before, under another local time zone and under 32 concurrent goroutines with -race.",
    "the Go scheduler is not controlled; the race detector reports races that occur on exercised paths"),
  "C19": ("exploration", "3/C19", "graph oracle",
    "Random build-dependency graphs are rendered as real .dsc text, parsed and ordered; acyclic graphs must give a permutation respecting every model edge, cyclic ones an error, and repeated runs the same outcome.",
    "edge set computed from the model with the C06 selection oracle"),
  "C20": ("fault_enumeration", "3/C20", "state machine over a scratch tree + injected faults",
-   "Copy/Move/Remove of generated uploads are run against a scratch tree with a fault planted at each referenced file and at the control file; final state, handle path, byte identity, control-file-last ordering and containment (nothing outside source and destination directories touched) are checked; syscall-level failures are injected with strace when ptrace is available.",
+   "Copy/Move/Remove of generated uploads are run against a scratch tree with a fault planted at each referenced file and at the control file; final state, handle path, byte identity, control-file-last ordering and containment (nothing outside source and destination directories touched) are checked; syscall-level failures are injected with strace when ptrace is available; the library's own scratch names in a destination are learned through inotify and attacked with planted links (C20/scratchnames); independent uploads go into one directory at the same time (C20/together).",
    "faults are filesystem pre-conditions and strace-injected syscall errors; power-loss semantics are out of scope"),
 }
 
